@@ -88,6 +88,37 @@ func runC01(c *Ctx) {
 						}
 					}
 				}
+				// the handler picked per case into a function variable and called once: the call hands (op, rm) on, every
+				// function the variable may hold is one of the four, and "none picked" is refused before the call
+				if ex, _ := r.Results[0].(*ssa.Extract); ex != nil && strings.HasSuffix(p0, "#0") && strings.HasSuffix(p1, "#1") {
+					if cl, ok := ex.Tuple.(*ssa.Call); ok && !cl.Call.IsInvoke() {
+						if phi, isPhi := cl.Call.Value.(*ssa.Phi); isPhi {
+							if ex1, _ := r.Results[1].(*ssa.Extract); ex1 != nil && ex1.Tuple == ex.Tuple {
+								known := true
+								for _, e := range phi.Edges {
+									if k, isK := e.(*ssa.Const); isK && k.IsNil() {
+										continue
+									}
+									fn := funcValueOf(e)
+									hit := false
+									for _, t := range opTypes {
+										hit = hit || (fn != nil && fn == af[t])
+									}
+									known = known && hit
+								}
+								nilRefused, _, _ := c.Guard(apply, nil, cmpReject("no handler picked: refused", token.EQL, pathIs(c.Path(phi, nil)), pathIs("nil")), func(in ssa.Instruction) bool { return in == ssa.Instruction(cl) })
+								a := cl.Call.Args
+								for _, e := range phi.Edges {
+									if fn := funcValueOf(e); fn != nil {
+										c.Check("C01.T1", "dispatch:args:"+fn.Name(), len(a) == 2 && c.Path(a[0], nil) == "$1" && c.Path(a[1], nil) == "$2", cl.Pos(), "apply function receives (operation, previous model) unchanged")
+									}
+								}
+								c.Check("C01.T1", "dispatch:default-refuses", known && nilRefused, cl.Pos(), "the handler variable holds one of the four apply functions, and is not called when none was picked")
+								continue
+							}
+						}
+					}
+				}
 				c.Check("C01.T1", "dispatch:default-refuses", !maySucceed(r) && p0 == "nil", r.Pos(), "a return of Apply outside the four cases must be (nil, error): "+p0+", "+p1)
 			}
 		}
@@ -129,7 +160,7 @@ func runC01(c *Ctx) {
 				}
 			} else {
 				nRef++
-				if c.Path(r.Results[0], nil) != "nil" {
+				if c.Path(r.Results[0], nil) != "nil" && !alwaysNilResult(r.Results[0]) {
 					okShape = false
 					bad = append(bad, c.pos(r.Pos())+": refusing return must carry a nil model")
 				}
@@ -151,20 +182,34 @@ func runC01(c *Ctx) {
 			}
 			S = sc.P(c) + "#0"
 		}
-		var apCall *ssa.Call
+		var apCall, apInner *ssa.Call
 		if typ != "deactivate" {
 			aps := c.treeCalls(f, nil, 0, func(cl *ssa.Call, env Env) bool { return callNamed(cl, "ApplyPatches") })
 			if len(aps) != 1 {
 				c.Check("C01.P1", typ+":ApplyPatches-call", false, f.Pos(), fmt.Sprintf("expected one ApplyPatches call, found %d", len(aps)))
 				continue
 			}
-			apCall = aps[0].top
+			apCall, apInner = aps[0].top, aps[0].call
 			a := declArgs(aps[0].call)
 			base := c.Path(a[0], aps[0].env)
 			if aps[0].fn != f {
 				// the call sits in a helper: the helper hands the composer's verdict back unchanged (document and error)
 				through := apCall.Call.StaticCallee() == aps[0].fn
+				// … or it is handed the model and installs the composer's document itself (decided by the install rules)
+				installs := false
+				for _, h := range c.objHelperCalls(O) {
+					if h.g == aps[0].fn && h.call == apCall {
+						forEachInstr(h.g, func(in ssa.Instruction) {
+							if storeEvent(h.g.Params[h.k], "Doc", func(v ssa.Value) bool { return v == extractOf(aps[0].call, 0) })(in) {
+								installs = true
+							}
+						})
+					}
+				}
 				for _, r := range returnsOf(aps[0].fn) {
+					if installs {
+						break
+					}
 					if len(r.Results) != 2 {
 						through = false
 						continue
@@ -242,7 +287,7 @@ func runC01(c *Ctx) {
 		}
 		got := map[string][]string{}
 		for _, fs := range c.storesIntoObj(O) {
-			p := c.Path(fs.Val, fs.Env)
+			p := c.fsPath(fs)
 			switch v := fs.Val.(type) {
 			case *ssa.MakeMap:
 				p = "<fresh>"
@@ -256,7 +301,7 @@ func runC01(c *Ctx) {
 					continue // explicit zero value == absent
 				}
 			}
-			if apCall != nil && fs.Val == extractOf(apCall, 0) {
+			if apCall != nil && (fs.Val == extractOf(apCall, 0) || (apInner != nil && fs.Val == extractOf(apInner, 0))) {
 				p = "<patched>"
 			}
 			got[fs.Field] = append(got[fs.Field], p)
@@ -275,7 +320,9 @@ func runC01(c *Ctx) {
 		}
 		chkHash := callTo("IsValidModelMultihash(op.Delta, bound delta hash)", isValidMH, pathIs(P+".Delta"), pathIs(deltaHashPath))
 		chkVD := invokeOf("ValidateDelta(op.Delta)", "ValidateDelta", pathIs(P+".Delta"))
-		chkAP := &GCheck{Name: "ApplyPatches succeeded", MatchCall: func(c *Ctx, call *ssa.Call, env Env) bool { return call == apCall }}
+		chkAP := &GCheck{Name: "ApplyPatches succeeded", MatchCall: func(c *Ctx, call *ssa.Call, env Env) bool {
+			return call == apCall || (apInner != nil && call == apInner && call.Parent() != f)
+		}}
 		chkParse := &GCheck{Name: "Parse" + typ + "Operation succeeded", MatchCall: func(c *Ctx, call *ssa.Call, env Env) bool { return call == pc.call }}
 		var chkWin, chkSig, chkSD *GCheck
 		if typ != "create" {
@@ -290,8 +337,16 @@ func runC01(c *Ctx) {
 			chkSig = callTo("VerifyJWS(op.SignedData, signedData."+sdKeyField[typ]+")", verifyJWS, pathIs(P+".SignedData"), pathIs(S+"."+sdKeyField[typ]))
 			chkSD = invokeOf(parseSDMethod[typ]+"(op.SignedData)", parseSDMethod[typ], pathIs(P+".SignedData"))
 		}
-		evUC := storeEvent(A, "UpdateCommitment", func(v ssa.Value) bool { _, k := v.(*ssa.Const); return !k })
-		evDocPatched := storeEvent(A, "Doc", func(v ssa.Value) bool { return apCall != nil && v == extractOf(apCall, 0) })
+		// (the object as the unexported helpers it is handed to see it)
+		var objAlso []ssa.Value
+		for _, h := range c.objHelperCalls(O) {
+			objAlso = append(objAlso, h.g.Params[h.k])
+		}
+		isPatched := func(v ssa.Value) bool {
+			return apCall != nil && (v == extractOf(apCall, 0) || (apInner != nil && v == extractOf(apInner, 0)))
+		}
+		evUC := storeEvent(A, "UpdateCommitment", func(v ssa.Value) bool { _, k := v.(*ssa.Const); return !k }, objAlso...)
+		evDocPatched := storeEvent(A, "Doc", isPatched, objAlso...)
 		guardEv := func(key string, chk *GCheck, ev func(ssa.Instruction) bool) {
 			ok, w, n := c.Guard(f, nil, chk, ev)
 			c.Check("C01.G2", typ+":"+key, ok, f.Pos(), fmt.Sprintf("%s lies behind [%s] (sites=%d)", key, chk.Name, n), w...)
@@ -304,7 +359,7 @@ func runC01(c *Ctx) {
 			guardEv("install-Doc<=ValidateDelta", chkVD, evDocPatched)
 			guardEv("install-Doc<=ApplyPatches", chkAP, evDocPatched)
 			// update commitment is installed before (= independently of) patch application
-			c.Check("C01.G2", typ+":UpdateCommitment-not-conditional-on-ApplyPatches", c.storeOnAllPathsAfter(O, "UpdateCommitment", apCall), f.Pos(), "the update-commitment install dominates the ApplyPatches call (patch failure still advances the commitment)")
+			c.Check("C01.G2", typ+":UpdateCommitment-not-conditional-on-ApplyPatches", c.storeOnAllPathsAfter(O, "UpdateCommitment", apCall, apInner), f.Pos(), "the update-commitment install dominates the ApplyPatches call (patch failure still advances the commitment)")
 			if typ == "recover" {
 				guardEv("install-Doc<=window", chkWin, evDocPatched)
 				ws := c.sites(f, nil, chkWin, 0)
@@ -386,6 +441,9 @@ func runC01(c *Ctx) {
 	// tables, handler write-sets, the left fold over the list, the handlers' decision skeletons, replace-by-id) is part of
 	// "the resolved state is the fold of the history"
 	runC10(c)
+	// the fold refuses an operation whose request is ill-formed: the applier parses every operation in batch mode, and
+	// what the parser accepts there (well-formed multihashes, key and header rules, size limits) is the subject of C07
+	runC07(c)
 }
 
 func numFields(n *types.Named) int {
@@ -397,25 +455,37 @@ func numFields(n *types.Named) int {
 }
 
 // storeEvent: stores into field fld of allocation A whose value satisfies pred.
-func storeEvent(A ssa.Value, fld string, pred func(v ssa.Value) bool) func(in ssa.Instruction) bool {
+func storeEvent(A ssa.Value, fld string, pred func(v ssa.Value) bool, also ...ssa.Value) func(in ssa.Instruction) bool {
 	return func(in ssa.Instruction) bool {
 		st, ok := in.(*ssa.Store)
 		if !ok {
 			return false
 		}
 		fa, ok := st.Addr.(*ssa.FieldAddr)
-		if !ok || fa.X != ssa.Value(A) || fieldName(A.Type(), fa.Field) != fld {
+		if !ok || fieldName(A.Type(), fa.Field) != fld {
 			return false
 		}
-		return pred(st.Val)
+		isObj := fa.X == ssa.Value(A)
+		for _, o := range also {
+			isObj = isObj || fa.X == o
+		}
+		return isObj && pred(st.Val)
 	}
 }
 
-// storeDominates: some non-constant store into A.fld dominates instruction at.
-func (c *Ctx) storeDominates(O *builtObj, fld string, at ssa.Instruction) bool {
+// storeOnAllPathsAfter: every path from entry through instruction `at` to a return executes a non-constant store into
+// A.fld (before or after `at`): the install does not depend on the outcome of `at`. When `at` is a call of a helper that
+// is handed the object and inner is the instruction inside that helper the question is about (the ApplyPatches call in
+// a tail that was moved into a helper), the helper's own stores are placed relative to inner, in the helper's frame.
+func (c *Ctx) storeOnAllPathsAfter(O *builtObj, fld string, at ssa.Instruction, inner ...ssa.Instruction) bool {
 	if at == nil {
 		return false
 	}
+	var in ssa.Instruction
+	if len(inner) > 0 && inner[0] != nil && inner[0] != at {
+		in = inner[0]
+	}
+	var here, there []ssa.Instruction
 	for _, fs := range c.storesIntoObj(O) {
 		if fs.Field != fld {
 			continue
@@ -423,35 +493,38 @@ func (c *Ctx) storeDominates(O *builtObj, fld string, at ssa.Instruction) bool {
 		if _, k := fs.Val.(*ssa.Const); k {
 			continue
 		}
-		if instrDominates(fs.At, at) {
-			return true
+		if fs.At == at && fs.Instr != nil && ssa.Instruction(fs.Instr) != at {
+			// a store made inside the helper that `at` calls
+			if in != nil && fs.Instr.Parent() == in.Parent() {
+				there = append(there, fs.Instr)
+			}
+			continue
 		}
+		here = append(here, fs.At)
 	}
-	return false
+	if in != nil && len(there) > 0 && onAllPathsThrough(there, in) {
+		return true
+	}
+	return onAllPathsThrough(here, at)
 }
 
-// storeOnAllPathsAfter: every path from entry through instruction `at` to a return executes a
-// non-constant store into A.fld (before or after `at`): the install does not depend on the outcome of `at`.
-func (c *Ctx) storeOnAllPathsAfter(O *builtObj, fld string, at ssa.Instruction) bool {
-	if at == nil {
-		return false
-	}
-	if c.storeDominates(O, fld, at) {
-		return true
+// onAllPathsThrough: every path from entry through `at` to a return executes one of the stores (all in at's function).
+func onAllPathsThrough(stores []ssa.Instruction, at ssa.Instruction) bool {
+	for _, st := range stores {
+		if st != at && instrDominates(st, at) {
+			return true
+		}
 	}
 	cut := map[edge]bool{}
 	storeBlocks := map[*ssa.BasicBlock]bool{}
-	for _, fs := range c.storesIntoObj(O) {
-		if fs.Field != fld {
-			continue
-		}
-		if _, k := fs.Val.(*ssa.Const); k {
-			continue
-		}
-		b := fs.At.Block()
+	for _, st := range stores {
+		b := st.Block()
 		if b == at.Block() {
-			// same block: the store must come after `at` (before was handled by dominance)
-			return true
+			// same block: the store comes after `at` (before was handled by dominance)
+			if st != at {
+				return true
+			}
+			continue
 		}
 		storeBlocks[b] = true
 		for _, s := range b.Succs {
@@ -471,4 +544,31 @@ func (c *Ctx) storeOnAllPathsAfter(O *builtObj, fld string, at ssa.Instruction) 
 		}
 	}
 	return true
+}
+
+// alwaysNilResult: v is a result of a call of an unexported helper / local function literal (a failure builder:
+// `return reject(msg, err)`) that is the nil constant on every exit of that function.
+func alwaysNilResult(v ssa.Value) bool {
+	ex, ok := v.(*ssa.Extract)
+	if !ok {
+		return false
+	}
+	cl, ok := ex.Tuple.(*ssa.Call)
+	if !ok {
+		return false
+	}
+	f := cl.Call.StaticCallee()
+	if f == nil {
+		f = localLiteral(cl)
+	}
+	if f == nil || !inModule(f) || f.Blocks == nil || (f.Object() != nil && f.Object().Exported()) {
+		return false
+	}
+	rs := returnsOf(f)
+	for _, r := range rs {
+		if ex.Index >= len(r.Results) || !isNilConst(returnedValue(r, ex.Index)) {
+			return false
+		}
+	}
+	return len(rs) > 0
 }
